@@ -15,17 +15,19 @@ type trimWriter struct {
 	trim bool
 }
 
-// Write writes b to the current buffer. If the trim flag is set,
-// a prefix whitespace trim on b is performed before writing it to
-// the buffer and the trim flag is unset. If the trim flag was not
-// set, the current buffer is flushed before b is written.
+// Write flushes the current buffer and then writes b to it. If the trim
+// flag is set, a prefix whitespace trim on b is performed before writing
+// it to the buffer and the trim flag is unset.
 // Write only returns the bytes written to w during a flush.
 func (tw *trimWriter) Write(b []byte) (n int, err error) {
+	// what is held back belongs to an earlier tag: it goes out before anything new is
+	// buffered, so that a later left trim reaches only the text next to it
+	if n, err = tw.Flush(); err != nil {
+		return n, err
+	}
 	if tw.trim {
 		b = bytes.TrimLeftFunc(b, unicode.IsSpace)
 		tw.trim = false
-	} else if n, err = tw.Flush(); err != nil {
-		return n, err
 	}
 	_, err = tw.buf.Write(b)
 	return
